@@ -38,7 +38,8 @@ class Task final {
 
   Task() noexcept = default;
   ~Task() noexcept {
-    if (Valid()) {
+    // A Task that already completed (it was started by co_await Await(task)) just releases its result
+    if (Valid() && !Ready()) {
       std::move(*this).Cancel();
     }
   }
